@@ -130,7 +130,12 @@ impl StringGenerator {
         let mut sgr = Vec::new();
         let mut sgr_tc = Vec::new();
 
-        let fg = attr.get_foreground();
+        // bold on a palette entry 0..=7 shows entry+8 (Buffer::render_to_rgba): write the colour that is shown
+        let fg = if attr.is_bold() && attr.get_foreground() < 8 {
+            attr.get_foreground() + 8
+        } else {
+            attr.get_foreground()
+        };
         let cur_fore_color = buf.palette.get_color(fg);
         let cur_fore_rgb = cur_fore_color.get_rgb();
 
@@ -151,7 +156,10 @@ impl StringGenerator {
         let is_concealed = attr.is_concealed();
 
         if let Some(idx) = fore_idx {
-            if idx > 7 && idx < 16 {
+            if idx < 8 {
+                // the shown colour is a dark DOS colour: SGR 1 would brighten it
+                is_bold = false;
+            } else if idx < 16 {
                 is_bold = true;
                 fore_idx = Some(idx - 8);
             }
